@@ -280,8 +280,9 @@ class QintImp(int, Qtype):
     @classmethod
     def sub(cls, tleft: TExp, tright: TExp) -> TExp:
         """Subtract two Qint"""
-        an = cls.bitwise_not(cls.fill(tleft))
-        su = cls.add(an, cls.fill(tright))
+        wider = tleft[0] if len(tleft[1]) >= len(tright[1]) else tright[0]
+        an = cls.bitwise_not(wider.fill(tleft))  # type: ignore
+        su = cls.add(an, wider.fill(tright))  # type: ignore
         return cls.bitwise_not(su)
 
     @classmethod
